@@ -276,7 +276,8 @@ impl<T: Qcow2IoOps> Qcow2Dev<T> {
         let done = if single {
             let l2_entry = self.get_l2_entry(offset).await?;
 
-            self.do_read(l2_entry, offset, buf).await?
+            // `len` may have been clamped to the end of the image
+            self.do_read(l2_entry, offset, &mut buf[..len]).await?
         } else {
             let nr_clusters = (len >> info.cluster_bits()) + 2;
             let mut reads = Vec::with_capacity(nr_clusters);
